@@ -184,68 +184,21 @@ example : TLegal (trun (tinit [2, 2] 1) (demoTOps.take 9)) (.endp 1 1) ∧
 
 /-! ## emulation compute unit
 
-Time is counted in cycles, `P` cycles per second (10^9 shipped). `EOk` = the environment's
-obligations: fresh MapWGReq ids, events fired in time order with **any** tie-break (`Legal`; Akita's
-serial engine pops a binary heap, which is neither first-in-first-out nor last-in-first-out among
-equal times), and hypothesis **H**: no MapWGReq is taken by a Tick that falls exactly on a whole
-second (`Ceil(now) == now`, so that the emulation event would be scheduled for `now` itself). -/
+`handleWGCompleteEvent` as repaired by `fix:` 776c38a7 (`wgComplete`; the code before the repair is
+`wgCompleteOld`, run by `erunOld`). Time is counted in cycles, `P` cycles per second (10^9 shipped).
+Environments, from strong to weak: `EOk` = fresh MapWGReq ids, events fired in time order with
+**any** tie-break (`Legal`; Akita's serial engine pops a binary heap, which is neither
+first-in-first-out nor last-in-first-out among equal times) and hypothesis **H**: no MapWGReq is
+taken by a Tick that falls exactly on a whole second (`Ceil(now) == now`, the emulation event is
+scheduled for `now` itself); `EOkNoH` = the same without H; `EOkAnyOrder` = fresh ids, H, pending
+events fired in ANY order; `EOkLoose` = fresh ids and "a WGCompleteEvent fires only if it is
+pending", nothing else. Before the repair exactly-once needed `EOk`; now `EOkLoose` suffices. -/
 
 /-- shipped clock: two work-groups, the port is full when the first completes -/
 def demoEOps : List EOp :=
   [.deliver 1, .tick 1, .emu 1000000000, .fill, .wgc 1000000001 1, .deliver 2, .wgc 1000000002 1,
    .tick 1000000002, .wgc 1000000003 1, .take, .tick 1000000004, .emu 2000000000, .wgc 2000000001 2, .take,
    .tick 2000000002]
-
-/-- **Every MapWGReq is answered exactly once** (time-ordered engine, any tie-break, hypothesis H).
-    After every run: no id occurs twice in all the WGCompletionMsgs sent (neither inside one
-    message nor across messages), every id sent is the id of a MapWGReq the CU has taken, and once
-    no emulation / completion event is pending every MapWGReq taken is in a message (hence in
-    exactly one, once) and the CU's bookkeeping (`wfs`, `finishedMapWGReqs`, queue) is empty. -/
-theorem emu_exactly_once_partial (P incap outcap : Nat) (hP : 0 < P) (ops : List EOp)
-    (hr : RunOk EOk (einit P incap outcap) ops) :
-    (flat (erun (einit P incap outcap) ops)).Nodup ∧
-    (∀ x ∈ flat (erun (einit P incap outcap) ops), x ∈ (erun (einit P incap outcap) ops).got) ∧
-    ((erun (einit P incap outcap) ops).emus = [] → (erun (einit P incap outcap) ops).wgcs = [] →
-      (∀ x ∈ (erun (einit P incap outcap) ops).got, x ∈ flat (erun (einit P incap outcap) ops)) ∧
-      (erun (einit P incap outcap) ops).wfs = [] ∧ (erun (einit P incap outcap) ops).finished = [] ∧
-      (erun (einit P incap outcap) ops).queue = []) := by
-  have h := einv_run (einv_init P incap outcap hP) ops hr
-  refine ⟨h.sent_nd, h.sent_got, fun he hw => ?_⟩
-  obtain ⟨hq, hwf, hf, hall⟩ := einv_quiescent h he hw
-  exact ⟨hall, hwf, hf, hq⟩
-
-example : RunOk EOk (einit 1000000000 1 1) demoEOps ∧
-    (erun (einit 1000000000 1 1) demoEOps).sent = [[1, 2]] ∧
-    (erun (einit 1000000000 1 1) demoEOps).got = [1, 2] ∧
-    (erun (einit 1000000000 1 1) demoEOps).emus = [] ∧ (erun (einit 1000000000 1 1) demoEOps).wgcs = [] := by
-  decide
-
-/-- **No accepted MapWGReq is left behind.** With the shipped incoming-buffer capacity of 1, a
-    MapWGReq sitting in `ToDispatcher` always has a Tick pending (`TickLater` on delivery; `Tick`
-    handles one message and returns false, so a second buffered message would never wake the CU —
-    capacity 1 is what makes this safe). Hence when the event list is empty the buffer is empty
-    too, and every request the port ever accepted has been taken and is in exactly one message. -/
-theorem emu_quiescent_means_all_answered (P outcap : Nat) (hP : 0 < P) (ops : List EOp)
-    (hr : RunOk EOk (einit P 1 outcap) ops)
-    (ht : (erun (einit P 1 outcap) ops).ticks = []) (he : (erun (einit P 1 outcap) ops).emus = [])
-    (hw : (erun (einit P 1 outcap) ops).wgcs = []) :
-    (erun (einit P 1 outcap) ops).inbuf = [] ∧
-    (∀ x ∈ (erun (einit P 1 outcap) ops).got, x ∈ flat (erun (einit P 1 outcap) ops)) ∧
-    (flat (erun (einit P 1 outcap) ops)).Nodup := by
-  have hI := einv_run (einv_init P 1 outcap hP) ops hr
-  have hK := kinv_run (kinv_init P outcap) (einv_init P 1 outcap hP) ops hr
-  refine ⟨?_, (einv_quiescent hI he hw).2.2.2, hI.sent_nd⟩
-  false_or_by_contra
-  rename_i hc
-  exact hK.in_tick hc ht
-
-example : (erun (einit 1000000000 1 1) demoEOps).ticks = [] ∧ (erun (einit 1000000000 1 1) demoEOps).inbuf = [] := by
-  decide
-
-/-- the same without hypothesis H -/
-def emu_exactly_once_full : Prop :=
-  ∀ (P incap outcap : Nat) (ops : List EOp), 0 < P → RunOk EOkNoH (einit P incap outcap) ops →
-    (flat (erun (einit P incap outcap) ops)).Nodup
 
 /-- the run reproduced on the real `emu.ComputeUnit` under the real `sim.SerialEngine` with
     `cu.Freq` = 1 Hz (every cycle is a whole second): request 2 is taken at t = 4 while the retry
@@ -254,47 +207,184 @@ def wholeSecondOps : List EOp :=
   [.deliver 1, .fill, .tick 1, .emu 1, .wgc 2 1, .wgc 3 1, .deliver 2, .wgc 4 1, .tick 4, .take, .emu 4,
    .tick 5, .wgc 5 2, .take, .take, .wgc 5 1]
 
-/-- **Without H the statement is false**: a retry `WGCompleteEvent` of request 1 that ties with the
-    first `WGCompleteEvent` of a request taken at a whole second may fire after it; the batch
-    `[1, 2]` has been sent and `finishedMapWGReqs` cleared, so request 1 is appended again and
-    answered a second time. At 1 GHz this needs one simulated second of back-pressure. -/
-theorem emu_exactly_once_full_refuted : ¬ emu_exactly_once_full := by
-  intro h
-  have := h 1 1 1 wholeSecondOps (by decide) (by decide)
-  revert this
-  decide
-
-example : (erun (einit 1 1 1) wholeSecondOps).sent = [[1, 2], [1]] := by decide
-
-/-- the same with hypothesis H but events fired in ANY order -/
-def emu_exactly_once_anyorder_full : Prop :=
-  ∀ (P incap outcap : Nat) (ops : List EOp), 0 < P → RunOk EOkAnyOrder (einit P incap outcap) ops →
-    (flat (erun (einit P incap outcap) ops)).Nodup
-
 /-- shipped clock, no request taken at a whole second, but the emulation event of request 2
     (t = 2 s) is fired before the pending retry of request 1 (t = 1 s + 2 cycles) -/
 def anyOrderOps : List EOp :=
   [.deliver 1, .tick 1, .emu 1000000000, .fill, .wgc 1000000001 1, .deliver 2, .tick 1000000002,
    .emu 2000000000, .take, .wgc 2000000001 2, .take, .wgc 1000000002 1]
 
-/-- **The time order is necessary**: with events in arbitrary order the retry of request 1 can fire
-    after the batch `[1, 2]` and request 1 is answered twice — the suspected hole; a time-ordered
-    engine excludes it (`emu_exactly_once_partial`). -/
-theorem emu_exactly_once_anyorder_full_refuted : ¬ emu_exactly_once_anyorder_full := by
+/-- **Every MapWGReq is answered exactly once** — time-ordered engine, any tie-break, requests may
+    be taken at any time, whole seconds included (no hypothesis H). After every run: no id occurs
+    twice in all the WGCompletionMsgs sent (neither inside one message nor across messages), every
+    id sent is the id of a MapWGReq the CU has taken, and once no emulation / completion event is
+    pending every MapWGReq taken is in a message (hence in exactly one, once) and the CU's
+    bookkeeping (`wfs`, `finishedMapWGReqs`, queue) is empty. -/
+theorem emu_exactly_once (P incap outcap : Nat) (hP : 0 < P) (ops : List EOp)
+    (hr : RunOk EOkNoH (einit P incap outcap) ops) :
+    (flat (erun (einit P incap outcap) ops)).Nodup ∧
+    (∀ x ∈ flat (erun (einit P incap outcap) ops), x ∈ (erun (einit P incap outcap) ops).got) ∧
+    ((erun (einit P incap outcap) ops).emus = [] → (erun (einit P incap outcap) ops).wgcs = [] →
+      (∀ x ∈ (erun (einit P incap outcap) ops).got, x ∈ flat (erun (einit P incap outcap) ops)) ∧
+      (erun (einit P incap outcap) ops).wfs = [] ∧ (erun (einit P incap outcap) ops).finished = [] ∧
+      (erun (einit P incap outcap) ops).queue = []) := by
+  have h := ninv_run (ninv_init P incap outcap) ops (runOk_mono (fun _ _ => eokNoH_loose) _ _ hr)
+  have hT := etime_run (etime_init P incap outcap hP) ops hr
+  refine ⟨h.core.sent_nd, h.core.sent_got, fun he hw => ?_⟩
+  obtain ⟨hq, hwf, hf, hall⟩ := einv_quiescent h hT he hw
+  exact ⟨hall, hwf, hf, hq⟩
+
+/-- the former counter-example is a run the theorem covers: request 2 taken at a whole second, the
+    retry of request 1 popped after the first event of request 2 — one message, each id once -/
+example : RunOk EOkNoH (einit 1 1 1) wholeSecondOps ∧ (erun (einit 1 1 1) wholeSecondOps).sent = [[1, 2]] ∧
+    (erun (einit 1 1 1) wholeSecondOps).got = [1, 2] ∧
+    (erun (einit 1 1 1) wholeSecondOps).emus = [] ∧ (erun (einit 1 1 1) wholeSecondOps).wgcs = [] := by
+  decide
+
+/-- the same under hypothesis H (the strongest statement that held before the repair) -/
+theorem emu_exactly_once_partial (P incap outcap : Nat) (hP : 0 < P) (ops : List EOp)
+    (hr : RunOk EOk (einit P incap outcap) ops) :
+    (flat (erun (einit P incap outcap) ops)).Nodup ∧
+    (∀ x ∈ flat (erun (einit P incap outcap) ops), x ∈ (erun (einit P incap outcap) ops).got) ∧
+    ((erun (einit P incap outcap) ops).emus = [] → (erun (einit P incap outcap) ops).wgcs = [] →
+      (∀ x ∈ (erun (einit P incap outcap) ops).got, x ∈ flat (erun (einit P incap outcap) ops)) ∧
+      (erun (einit P incap outcap) ops).wfs = [] ∧ (erun (einit P incap outcap) ops).finished = [] ∧
+      (erun (einit P incap outcap) ops).queue = []) :=
+  emu_exactly_once P incap outcap hP ops (runOk_mono (fun _ _ => eok_noH) _ _ hr)
+
+example : RunOk EOk (einit 1000000000 1 1) demoEOps ∧
+    (erun (einit 1000000000 1 1) demoEOps).sent = [[1, 2]] ∧
+    (erun (einit 1000000000 1 1) demoEOps).got = [1, 2] ∧
+    (erun (einit 1000000000 1 1) demoEOps).emus = [] ∧ (erun (einit 1000000000 1 1) demoEOps).wgcs = [] := by
+  decide
+
+/-- **No accepted MapWGReq is left behind** (time-ordered engine, any tie-break, no hypothesis H).
+    With the shipped incoming-buffer capacity of 1, a MapWGReq sitting in `ToDispatcher` always has
+    a Tick pending (`TickLater` on delivery; `Tick` handles one message and returns false, so a
+    second buffered message would never wake the CU — capacity 1 is what makes this safe). Hence
+    when the event list is empty the buffer is empty too, and every request the port ever
+    accepted has been taken and is in exactly one message. -/
+theorem emu_quiescent_means_all_answered (P outcap : Nat) (hP : 0 < P) (ops : List EOp)
+    (hr : RunOk EOkNoH (einit P 1 outcap) ops)
+    (ht : (erun (einit P 1 outcap) ops).ticks = []) (he : (erun (einit P 1 outcap) ops).emus = [])
+    (hw : (erun (einit P 1 outcap) ops).wgcs = []) :
+    (erun (einit P 1 outcap) ops).inbuf = [] ∧
+    (∀ x ∈ (erun (einit P 1 outcap) ops).got, x ∈ flat (erun (einit P 1 outcap) ops)) ∧
+    (flat (erun (einit P 1 outcap) ops)).Nodup := by
+  have hI := ninv_run (ninv_init P 1 outcap) ops (runOk_mono (fun _ _ => eokNoH_loose) _ _ hr)
+  have hT := etime_run (etime_init P 1 outcap hP) ops hr
+  have hK := kinv_run (kinv_init P outcap) (etime_init P 1 outcap hP) ops hr
+  refine ⟨?_, (einv_quiescent hI hT he hw).2.2.2, hI.core.sent_nd⟩
+  false_or_by_contra
+  rename_i hc
+  exact hK.in_tick hc ht
+
+example : (erun (einit 1000000000 1 1) demoEOps).ticks = [] ∧ (erun (einit 1000000000 1 1) demoEOps).inbuf = [] ∧
+    RunOk EOkNoH (einit 1000000000 1 1) demoEOps := by
+  decide
+
+/-- the full statement: no hypothesis H -/
+def emu_exactly_once_full : Prop :=
+  ∀ (P incap outcap : Nat) (ops : List EOp), 0 < P → RunOk EOkNoH (einit P incap outcap) ops →
+    (flat (erun (einit P incap outcap) ops)).Nodup
+
+/-- **The full statement holds for the repaired code** (it was refuted before, see below). -/
+theorem emu_exactly_once_full_holds : emu_exactly_once_full :=
+  fun P incap outcap ops hP hr => (emu_exactly_once P incap outcap hP ops hr).1
+
+/-- the full statement about the code BEFORE the repair (`erunOld` runs `wgCompleteOld`) -/
+def emu_exactly_once_full_before_fix : Prop :=
+  ∀ (P incap outcap : Nat) (ops : List EOp), 0 < P → RunOkOld EOkNoH (einit P incap outcap) ops →
+    (flat (erunOld (einit P incap outcap) ops)).Nodup
+
+/-- **Before the repair the statement was false without H**: a retry `WGCompleteEvent` of request 1
+    that ties with the first `WGCompleteEvent` of a request taken at a whole second may fire after
+    it; the batch `[1, 2]` has been sent and `finishedMapWGReqs` cleared, so request 1 was appended
+    again and answered a second time. At 1 GHz this needs one simulated second of back-pressure.
+    (Kept so that the witness stays stated; the harness replays it on the real code and now expects
+    one answer per request.) -/
+theorem emu_exactly_once_full_before_fix_refuted : ¬ emu_exactly_once_full_before_fix := by
+  intro h
+  have := h 1 1 1 wholeSecondOps (by decide) (by decide)
+  revert this
+  decide
+
+example : (erunOld (einit 1 1 1) wholeSecondOps).sent = [[1, 2], [1]] := by decide
+example : (erun (einit 1 1 1) wholeSecondOps).sent = [[1, 2]] := by decide
+
+/-- the same with hypothesis H but events fired in ANY order -/
+def emu_exactly_once_anyorder_full : Prop :=
+  ∀ (P incap outcap : Nat) (ops : List EOp), 0 < P → RunOk EOkAnyOrder (einit P incap outcap) ops →
+    (flat (erun (einit P incap outcap) ops)).Nodup
+
+/-- **Exactly-once bookkeeping whatever the order of events** (`EOkLoose`: fresh ids; a
+    WGCompleteEvent fires only if pending; Ticks and emulation events at any time, in any order).
+    No id occurs twice in all the messages, every id sent was taken, and when no completion event
+    is pending and nothing is queued, every request taken is in a message and `wfs` /
+    `finishedMapWGReqs` are empty. (That the queue empties needs the time order:
+    `emu_anyorder_can_strand_the_queue`.) -/
+theorem emu_exactly_once_anyorder (P incap outcap : Nat) (ops : List EOp)
+    (hr : RunOk EOkLoose (einit P incap outcap) ops) :
+    (flat (erun (einit P incap outcap) ops)).Nodup ∧
+    (∀ x ∈ flat (erun (einit P incap outcap) ops), x ∈ (erun (einit P incap outcap) ops).got) ∧
+    ((erun (einit P incap outcap) ops).wgcs = [] → (erun (einit P incap outcap) ops).queue = [] →
+      (∀ x ∈ (erun (einit P incap outcap) ops).got, x ∈ flat (erun (einit P incap outcap) ops)) ∧
+      (erun (einit P incap outcap) ops).wfs = [] ∧ (erun (einit P incap outcap) ops).finished = []) := by
+  have h := ninv_run (ninv_init P incap outcap) ops hr
+  refine ⟨h.core.sent_nd, h.core.sent_got, fun hw hq => ?_⟩
+  obtain ⟨hwf, hf, hall⟩ := ninv_quiescent h hw hq
+  exact ⟨hall, hwf, hf⟩
+
+example : RunOk EOkLoose (einit 1000000000 1 1) anyOrderOps ∧
+    (erun (einit 1000000000 1 1) anyOrderOps).sent = [[1, 2]] ∧
+    (erun (einit 1000000000 1 1) anyOrderOps).wgcs = [] ∧ (erun (einit 1000000000 1 1) anyOrderOps).queue = [] := by
+  decide
+
+/-- **The any-order statement holds for the repaired code**: the time order is no longer needed
+    for "no request answered twice". -/
+theorem emu_exactly_once_anyorder_full_holds : emu_exactly_once_anyorder_full :=
+  fun P incap outcap ops _ hr =>
+    (emu_exactly_once_anyorder P incap outcap ops (runOk_mono (fun _ _ => eokAnyOrder_loose) _ _ hr)).1
+
+/-- the any-order statement about the code BEFORE the repair -/
+def emu_exactly_once_anyorder_full_before_fix : Prop :=
+  ∀ (P incap outcap : Nat) (ops : List EOp), 0 < P → RunOkOld EOkAnyOrder (einit P incap outcap) ops →
+    (flat (erunOld (einit P incap outcap) ops)).Nodup
+
+/-- **Before the repair the time order was necessary**: with events in arbitrary order the retry of
+    request 1 could fire after the batch `[1, 2]` and request 1 was answered twice. -/
+theorem emu_exactly_once_anyorder_full_before_fix_refuted : ¬ emu_exactly_once_anyorder_full_before_fix := by
   intro h
   have := h 1000000000 1 1 anyOrderOps (by decide) (by decide)
   revert this
   decide
 
-example : (erun (einit 1000000000 1 1) anyOrderOps).sent = [[1, 2], [1]] := by decide
+example : (erunOld (einit 1000000000 1 1) anyOrderOps).sent = [[1, 2], [1]] := by decide
+example : (erun (einit 1000000000 1 1) anyOrderOps).sent = [[1, 2]] := by decide
 
 /-- **What survives any event order: no unknown id.** Every id in every WGCompletionMsg is the id of
-    a MapWGReq the CU has taken. -/
+    a MapWGReq the CU has taken (part of `emu_exactly_once_anyorder`; statement kept from before
+    the repair, when it was all that survived). -/
 theorem emu_exactly_once_anyorder_partial (P incap outcap : Nat) (ops : List EOp)
     (hr : RunOk EOkAnyOrder (einit P incap outcap) ops) :
     ∀ x ∈ flat (erun (einit P incap outcap) ops), x ∈ (erun (einit P incap outcap) ops).got :=
-  (oinv_run ⟨by simp [einit], by simp [einit], by simp [einit], by simp [einit, flat]⟩ ops hr).sent_got
+  (emu_exactly_once_anyorder P incap outcap ops (runOk_mono (fun _ _ => eokAnyOrder_loose) _ _ hr)).2.1
 
 example : RunOk EOkAnyOrder (einit 1000000000 1 1) anyOrderOps := by decide
+
+/-- the emulation event of t = 1 s is fired before the Tick of cycle 2 that takes request 2: the
+    Tick sees `nextTick` = 1 s in its future and schedules nothing -/
+def strandOps : List EOp :=
+  [.deliver 1, .tick 1, .deliver 2, .emu 1000000000, .tick 2, .wgc 1000000001 1]
+
+/-- **Progress does need the time order** (unchanged by the repair): with events in arbitrary order
+    a Tick can run "before" an emulation event that has already fired, relies on it and leaves its
+    request queued with no event pending — nothing is answered, though nothing is answered twice.
+    A time-ordered engine excludes this (`emu_exactly_once`, `emu_quiescent_means_all_answered`). -/
+theorem emu_anyorder_can_strand_the_queue :
+    RunOk EOkAnyOrder (einit 1000000000 1 1) strandOps ∧
+    (erun (einit 1000000000 1 1) strandOps).ticks = [] ∧ (erun (einit 1000000000 1 1) strandOps).emus = [] ∧
+    (erun (einit 1000000000 1 1) strandOps).wgcs = [] ∧ (erun (einit 1000000000 1 1) strandOps).queue = [2] ∧
+    (erun (einit 1000000000 1 1) strandOps).got = [1, 2] ∧ (erun (einit 1000000000 1 1) strandOps).sent = [] := by
+  decide
 
 end C09.CUSide
